@@ -69,11 +69,19 @@ def load_records(df, fname, scale, h):
     return df.named3(fname, scale)
 
 
+class Exp(float):
+    """expected value after the build's %.10E print; .raw = the number as written in the data file.  Either is 'exactly the shipped value':
+    a build that keeps more digits must not be reported."""
+    raw = None
+
+
 def expected_value(recs, z, dname):
     v = recs.get((z, dname))
     if v is None or not (v > 0):
         return None
-    return xrl.round11(v)
+    e = Exp(xrl.round11(v))
+    e.raw = v
+    return e
 
 
 def work(item):
@@ -148,7 +156,10 @@ def work_biggs(st, config, L, h, df, zmax):
     for z in ZS:
         occ = cp.get(z, {}).get("occ", []) if 1 <= z <= zmax else []
         for s in macro_range([0, h.val.get("SHELLNUM_C", 29) - 1]):
-            exp = xrl.round11(occ[s]) if 0 <= s < len(occ) and occ[s] > 0 else None
+            exp = None
+            if 0 <= s < len(occ) and occ[s] > 0:
+                exp = Exp(xrl.round11(occ[s]))
+                exp.raw = occ[s]
             got, err = L.call("ElectronConfig_Biggs", z, s)
             judge(st, config, "ElectronConfig_Biggs", (z, s), exp, got, err, "shell%d" % s if 0 <= s < 40 else None)
     return st
@@ -160,9 +171,9 @@ def judge(st, config, fn, args, exp, got, err, name=None):
     if exp is not None:
         st.nt()
         st.cls("value_cells")
-        st.sample("value:" + fn, dict(case, expected=exp), cap=1)
-        if err is not None or got != exp:
-            st.violation("value:%s:%s" % (fn, name or "Z"), case, expected=exp, got=dict(value=got, error=err))
+        st.sample("value:" + fn, dict(case, expected=float(exp)), cap=1)
+        if err is not None or (got != exp and got != getattr(exp, "raw", exp)):
+            st.violation("value:%s:%s" % (fn, name or "Z"), case, expected=float(exp), got=dict(value=got, error=err))
     else:
         st.cls("error_cells")
         st.sample("error:" + fn, case, cap=1)
@@ -224,4 +235,4 @@ def replay(ctx, rec):
     print("replay %s%s expected=%r got=%r err=%r" % (fn, tuple(args), exp, got, err))
     if exp is None:
         return err is not None and got == 0.0
-    return err is None and got == exp
+    return err is None and (got == exp or got == getattr(exp, "raw", exp))
